@@ -1413,11 +1413,19 @@ class TrigInfo:
             func_args,
         )
 
+        kill_me = bool(self.task_unique_kwargs and self.task_unique_kwargs["kill_me"])
+
         async def do_func_call(func, ast_ctx, task_unique, task_unique_func, hass_context, **kwargs):
             # Store HASS Context for this Task
             Function.store_hass_context(hass_context)
 
             if task_unique and task_unique_func:
+                if kill_me and Function.unique_name_used(ast_ctx, task_unique):
+                    #
+                    # another run claimed the name between the trigger and the start of
+                    # this task (eg, two triggers in the same instant): it's us that goes
+                    #
+                    return
                 await task_unique_func(task_unique)
             try:
                 await ast_ctx.call_func(func, None, **kwargs)
